@@ -362,6 +362,15 @@ func c11FileOnce(c *fw.Ctx, path string, n int, pass int) bool {
 		return false
 	}
 	defer rd.Dispose()
+	if pass%2 == 1 || len(want)%2 == 1 {
+		// the two-step use of the reader (lal's own flv tools): header first, then tags
+		h, err := rd.ReadFlvHeader()
+		if err != nil || len(h) != 13 || !bytes.Equal(h[:3], []byte("FLV")) {
+			c.Violate("file/lal-read-header", fmt.Sprintf("FlvFileReader.ReadFlvHeader: err=%v header=% x", err, h), nil)
+			return false
+		}
+		c.Count("files_read_header_first", 1)
+	}
 	for i := range want {
 		t, err := rd.ReadTag()
 		if err != nil || t.Header.Type != want[i].typ || t.Header.Timestamp != want[i].ts || !bytes.Equal(t.Payload(), want[i].data) {
